@@ -30,6 +30,7 @@ func c02(c *eng.Ctx, r *eng.Report) {
 		"R2.10 every dispatch on the kind of a split RLP item in the trie decoder handles Byte, String and List or ends in an error. " +
 		"R2.12 the root a trie reports is the hash of its root node: every value Trie.Hash returns, and every root Trie.Commit returns with a nil error, comes out of hashRoot (which yields the empty-set root for an empty trie) — never a constant or a zero value; " +
 		"R2.13 the node store's read path has no length floor: whether a stored blob is treated as present depends only on the lookup error and on its being nil — the root node is stored under its hash however short its encoding (the force flag of R2.4), so a test like len(enc) < 32 makes small tries unreadable after a reload; " +
+		"R2.15 the node decoder accepts every node the encoder can write: decodeShort and decodeFull fail only when an RLP split or a child decode failed — each error they return carries a callee's error, they raise none of their own (a short node's path may be empty: two keys that differ in their last nibble leave two leaves with nothing but the terminator; a branch value may be empty) — the reviewed shape checks live in decodeNode and decodeRef; " +
 		"R2.14 the node decoder and the embedded-child path agree: decodeRef hands decodeNode the remainder of the parent's buffer (the child's own bytes followed by its siblings), so decodeNode may treat bytes after the node's list as an error only if decodeRef trims what it passes to the child's size; " +
 		"R2.11 prefixLen (where insert/delete split a short node) returns a position: every value it returns after having looked at key content derives from the scan position carried round its loop, never from one comparison step alone. " +
 		"Not decided: equality of the root with the Yellow-Paper value for a given content, iterator order as such, resolution after cache eviction."
@@ -48,6 +49,7 @@ func c02(c *eng.Ctx, r *eng.Report) {
 	c02RootReported(c, r)
 	c02NoLengthFloor(c, r)
 	c02EmbeddedDecode(c, r)
+	c02DecoderRejectsOnlyRLP(c, r)
 }
 
 func isNodePtr(t types.Type) (string, bool) {
@@ -1031,4 +1033,111 @@ func c02EmbeddedDecode(c *eng.Ctx, r *eng.Report) {
 		}
 	}
 	r.Check(!strict || trimmed, rule, "embedded-child:buffer-contract", c.Pos(dn.Pos()), fmt.Sprintf("decodeNode inspects trailing bytes=%v, decodeRef trims the child's buffer=%v", strict, trimmed), "decodeNode now looks at the bytes after the node's list while decodeRef still hands an embedded child the un-trimmed remainder of its parent's buffer: every branch with an inlined (<32-byte) child fails to decode from the store — small keys and values make the trie unreadable after a commit (mustDecodeNode panics)")
+}
+
+// c02DecoderRejectsOnlyRLP: see R2.15.
+func c02DecoderRejectsOnlyRLP(c *eng.Ctx, r *eng.Report) {
+	const rule = "R2.15"
+	r.Min(rule, 2)
+	for _, name := range []string{"decodeShort", "decodeFull"} {
+		fn := c.Func(triePkg, name)
+		if !r.Anchor(fn != nil, rule, "trie."+name) {
+			continue
+		}
+		n, bad := 0, ""
+		for _, re := range eng.Returns(fn) {
+			ev := re.Incoming(1)
+			if eng.IsNilConst(ev) {
+				continue
+			}
+			n++
+			if !carriesCalleeError(ev) {
+				bad = c.Pos(re.Ret.Pos())
+				if in, ok := ev.(ssa.Instruction); ok && in.Pos().IsValid() {
+					bad = c.Pos(in.Pos())
+				}
+			}
+		}
+		r.Check(bad == "" && n >= 1, rule, "decoder-own-error:"+name, c.Pos(fn.Pos()), fmt.Sprintf("%d error returns, each carries the error of an RLP split or child decode", n), name+" raises an error of its own at "+bad+" (no callee failed): it rejects a node the encoder writes — a leaf whose path is only the terminator, as left by two keys differing in their last nibble — so a committed trie cannot be read back: Get panics in mustDecodeNode or returns MissingNodeError for a key that was stored")
+	}
+}
+
+// carriesCalleeError: v is, or is built from, the error result of a call that
+// is not itself an error constructor.
+func carriesCalleeError(v ssa.Value) bool {
+	seen := map[ssa.Value]bool{}
+	var walk func(v ssa.Value, d int) bool
+	walk = func(v ssa.Value, d int) bool {
+		if v == nil || d > 14 || seen[v] {
+			return false
+		}
+		seen[v] = true
+		isErr := types.Identical(v.Type(), types.Universe.Lookup("error").Type())
+		switch x := v.(type) {
+		case *ssa.Extract:
+			if isErr {
+				if call, ok := x.Tuple.(*ssa.Call); ok && !errorCtor(call) {
+					return true
+				}
+			}
+			return false
+		case *ssa.Call:
+			if isErr && !errorCtor(x) && len(x.Call.Args) == 0 {
+				return true
+			}
+			for _, a := range x.Call.Args {
+				if walk(a, d+1) {
+					return true
+				}
+			}
+			if isErr && !errorCtor(x) {
+				// an error-returning module function handed no error: its own
+				return false
+			}
+			return false
+		case *ssa.Phi:
+			for _, e := range x.Edges {
+				if eng.IsNilConst(e) {
+					continue
+				}
+				if !walk(e, d+1) {
+					return false
+				}
+			}
+			return true
+		case *ssa.Slice:
+			return walk(x.X, d+1)
+		case *ssa.Alloc:
+			for _, ref := range *x.Referrers() {
+				switch y := ref.(type) {
+				case *ssa.IndexAddr:
+					for _, r2 := range *y.Referrers() {
+						if st, ok := r2.(*ssa.Store); ok && walk(st.Val, d+1) {
+							return true
+						}
+					}
+				case *ssa.Store:
+					if y.Addr == ssa.Value(x) && walk(y.Val, d+1) {
+						return true
+					}
+				}
+			}
+			return false
+		case *ssa.MakeInterface:
+			return walk(x.X, d+1)
+		case *ssa.ChangeInterface:
+			return walk(x.X, d+1)
+		case *ssa.ChangeType:
+			return walk(x.X, d+1)
+		case *ssa.UnOp:
+			return walk(x.X, d+1)
+		}
+		return false
+	}
+	return walk(v, 0)
+}
+
+func errorCtor(call *ssa.Call) bool {
+	n := eng.CallName(&call.Call)
+	return n == "fmt.Errorf" || n == "errors.New"
 }
